@@ -226,6 +226,24 @@ pub fn order_spec(cfg: OrderGenCfg) -> BoxedStrategy<OrderSpec> {
         .boxed()
 }
 
+/// Sizes for bulk operations, list lengths and level depths: 1..=8 half of the time, otherwise a
+/// value just around a power of two 2^k (k = 5..=max_pow, from 3 below to 8 above, so that a
+/// threshold at 2^k is crossed either way), each power weighted by 2^(-k/2): large sizes are rare
+/// but every magnitude up to 2^max_pow keeps a share of the work that shrinks only with the
+/// square root of its cost.
+pub fn size_class(max_pow: u32) -> BoxedStrategy<u32> {
+    let mut v: Vec<(u32, BoxedStrategy<u32>)> = Vec::new();
+    let top = max_pow.max(5);
+    let w = |k: u32| ((16.0 * 2f64.powf((top - k) as f64 / 2.0)).round() as u32).max(1);
+    let total: u32 = (5..=top).map(w).sum();
+    v.push((total, (1u32..=8).boxed()));
+    for k in 5..=top {
+        let base = 1u32 << k;
+        v.push((w(k), ((base - 3)..=(base + 8)).boxed()));
+    }
+    proptest::strategy::Union::new_weighted(v).boxed()
+}
+
 /// Longest-encoding variant of an order description: every numeric field gets a 20-digit value
 /// (length-dependent code paths; used with low probability by the codec generators).
 pub fn widest(mut s: OrderSpec, salt: u64) -> OrderSpec {
